@@ -1404,6 +1404,20 @@ def seq_method(engine, st, method, args, dest_ty):
             out.insert(pos, x)
         s.items[:] = out
         return UnitV()
+    if method in ('sort', 'sort_unstable') and isinstance(s, VecV) and s.items and all(isinstance(deref_all(x), IV) for x in s.items):
+        # symbolic integers: insertion sort, the path splits on every comparison (the result is THE sorted sequence)
+        out = []
+        for x in s.items:
+            pos = len(out)
+            for i, y in enumerate(out):
+                if engine.split_bool(st, zs(deref_all(x).t < deref_all(y).t)):
+                    pos = i
+                    break
+            out.insert(pos, x)
+        s.items[:] = out
+        return UnitV()
+    if method in ('sort', 'sort_unstable') and isinstance(s, VecV) and not s.items:
+        return UnitV()
     if method in ('sort', 'sort_unstable') and isinstance(s, VecV) and all(isinstance(deref_all(x), Opaque) for x in s.items):
         s.items.sort(key=lambda x: deref_all(x).name)        # strings known by their text
         return UnitV()
